@@ -25,6 +25,7 @@ func runC10(c *Ctx) {
 			c.Ob("R10.1", "generated token."+kv.n, o != nil && o.Val().ExactString() == kv.v, "must be "+kv.v)
 		}
 	}
+	checkSymbolNamespace(c, p, "R10.7")
 	// ---- R10.2 the terminal list starts INVALID, end marker; Add appends unseen ids only ----
 	symPkg := "internal/parser/symbols"
 	if ns := p.Func(symPkg, "NewSymbols"); ns != nil {
